@@ -291,3 +291,26 @@ Theorem c05_limit_event_means_failed_post_inv : forall (a : assets) (s : session
   has_limit_event (sp_events (sprint_ x')) = true -> s_status (session_ x') = SFailed.
 Proof. exact resume_limit_event_failed. Qed.
 Print Assumptions c05_limit_event_means_failed_post_inv.
+
+(* ---- Proof extension: "hitting the limit ends the session as failed with a failure event" over failure KINDS ----
+   No wording is involved: [has_limit_event] looks for an event of kind EFailure FStepLimit (the kind only the
+   step-limit check logs, c05_limit_crossing).  If the sprint of a call that returned contains one, the session is
+   failed AND the sprint contains exactly one such event ([count_limit] counts them): the limit is hit at most once per
+   sprint, because after it no iteration has a destination any more. *)
+Theorem c05_limit_exactly_once_start : forall (a : assets) (t : trigger) (f : id) (x' : st),
+  start a t f = ROk x' -> has_limit_event (sp_events (sprint_ x')) = true ->
+  s_status (session_ x') = SFailed /\ count_limit (sp_events (sprint_ x')) = 1%nat.
+Proof. exact start_limit_exactly_once. Qed.
+Print Assumptions c05_limit_exactly_once_start.
+
+Theorem c05_limit_exactly_once_resume : forall (a : assets) (s : session) (r : resume) (tmo : text) (x' : st),
+  post_inv s -> resume_session a s r tmo = Resumed (ROk x') -> has_limit_event (sp_events (sprint_ x')) = true ->
+  s_status (session_ x') = SFailed /\ count_limit (sp_events (sprint_ x')) = 1%nat.
+Proof. exact resume_limit_exactly_once. Qed.
+Print Assumptions c05_limit_exactly_once_resume.
+
+(* ... and never more than one, whether or not the session ends failed for another reason *)
+Theorem c05_at_most_one_limit_event : forall (a : assets) (s : session) (r : resume) (tmo : text) (x' : st),
+  post_inv s -> resume_session a s r tmo = Resumed (ROk x') -> (count_limit (sp_events (sprint_ x')) <= 1)%nat.
+Proof. exact resume_limit_once. Qed.
+Print Assumptions c05_at_most_one_limit_event.
